@@ -319,37 +319,19 @@ theorem simpson_level0_eq_trap (g : G1) (hl : g.level = 0) (hm : g.modified = fa
   unfold trapWeight
   simp [hm]
 
-theorem simpsonWeights_length_on (g : G1) (hb : g.boundary = true) : (simpsonWeights g).length = g.numPoints := by
+/-- **count clause for the Simpson family**, every level / sub-interval / boundary flag: as many weights as announced
+(the code slices the Simpson weights with the same border indices as the points) -/
+theorem simpsonWeights_length (g : G1) : (simpsonWeights g).length = g.numPoints := by
   unfold simpsonWeights
   by_cases h : g.nwb < 3
   · simp [h]
-  · simp [h, hb, simpsonFull_length, numPoints_on g hb]
-
-/-- with `boundary = False` and level ≥ 1 the code returns `weights[1:-1]`, i.e. always `2^level − 1` weights -/
-theorem simpsonWeights_length_off (g : G1) (hb : g.boundary = false) (hl : 1 ≤ g.level) :
-    (simpsonWeights g).length = 2 ^ g.level - 1 := by
-  unfold simpsonWeights
-  have h3 : ¬ g.nwb < 3 := by
-    unfold G1.nwb
-    have : 2 ^ 1 ≤ 2 ^ g.level := Nat.pow_le_pow_right (by omega) hl
+  · have hu := upperBorder_le g
+    have hd := border_diff g
+    rw [if_neg h]
+    simp only [slice, simpsonFull_length, List.length_take, List.length_drop, G1.nwb]
     omega
-  simp only [h3, if_false, hb, Bool.not_false, if_true, slice, simpsonFull_length, List.length_take, List.length_drop]
-  unfold G1.nwb
-  omega
 
-/-- **defect (mirrored)**: `SimpsonGrid(boundary=False)` at level ≥ 1 on a sub-interval that does not touch BOTH sides of
-the domain returns the announced number of points but fewer weights -/
-theorem simpson_off_count_defect (g : G1) (hb : g.boundary = false) (hl : 1 ≤ g.level) (ht : g.tl + g.th ≠ 2) :
-    (points1d g).length = g.numPoints ∧ (simpsonWeights g).length < (points1d g).length := by
-  have htl := tl_le g; have hth := th_le g; have hN := two_pow_pos g.level
-  refine ⟨points1d_length g, ?_⟩
-  rw [points1d_length, simpsonWeights_length_off g hb hl, numPoints_off g hb]
-  omega
-
-/-- … and it is consistent when both sides are touched (the full interval of that dimension) -/
-theorem simpson_off_count_full (g : G1) (hb : g.boundary = false) (hl : 1 ≤ g.level) (ht : g.tl + g.th = 2) :
-    (simpsonWeights g).length = (points1d g).length := by
-  rw [points1d_length, simpsonWeights_length_off g hb hl, numPoints_off g hb, ht]
-  omega
+theorem simpsonWeights_length_on (g : G1) (_hb : g.boundary = true) : (simpsonWeights g).length = g.numPoints :=
+  simpsonWeights_length g
 
 end SparseSpace.Quad
